@@ -35,6 +35,7 @@ type Engine struct {
 	funcTagNames []string
 
 	specDeclCache map[string]string
+	unstable      map[*ssa.Global]string // globals written or address-taken outside init
 	warnings      []string
 }
 
@@ -85,6 +86,7 @@ func LoadEngine(repo, specDir string) (*Engine, error) {
 		}
 		e.funcs[fnKey(f)] = f
 	}
+	e.computeStableGlobals()
 	pkgDirs := map[string]string{}
 	for path, p := range e.pkgs {
 		if strings.HasPrefix(path, "github.com/google/badwolf") && len(p.GoFiles) > 0 {
@@ -327,4 +329,38 @@ func loopStmts(fn *ssa.Function) []ast.Node {
 	})
 	sort.Slice(out, func(i, j int) bool { return out[i].Pos() < out[j].Pos() })
 	return out
+}
+
+// computeStableGlobals: a package-level variable is stable when only the package's init
+// functions store to it and its address is never used for anything but loads and stores.
+func (e *Engine) computeStableGlobals() {
+	e.unstable = map[*ssa.Global]string{}
+	for f := range e.allFuncs {
+		isInit := f.Pkg != nil && (f.Name() == "init" || strings.HasPrefix(f.Name(), "init#")) && f.Parent() == nil
+		for _, b := range f.Blocks {
+			for _, in := range b.Instrs {
+				for _, op := range in.Operands(nil) {
+					g, ok := (*op).(*ssa.Global)
+					if !ok {
+						continue
+					}
+					switch i := in.(type) {
+					case *ssa.UnOp:
+						continue // load
+					case *ssa.Store:
+						if i.Addr == g && i.Val != g {
+							if isInit && f.Pkg == g.Pkg {
+								continue
+							}
+							e.unstable[g] = "stored in " + f.String()
+							continue
+						}
+					case *ssa.DebugRef:
+						continue
+					}
+					e.unstable[g] = "address used in " + f.String()
+				}
+			}
+		}
+	}
 }
